@@ -313,6 +313,15 @@ func offerAlloc(it *cloudprovider.InstanceType, o *cloudprovider.Offering) RL {
 	for k, v := range capa {
 		out[k] = v - ov[k]
 	}
+	// hugepage reservations are not available as ordinary memory
+	for k, v := range capa {
+		if len(k) > len(corev1.ResourceHugePagesPrefix) && k[:len(corev1.ResourceHugePagesPrefix)] == corev1.ResourceHugePagesPrefix {
+			out["memory"] -= v
+			if out["memory"] < 0 {
+				out["memory"] = 0
+			}
+		}
+	}
 	return out
 }
 
